@@ -234,6 +234,35 @@ type fakeMsg struct {
 	fset  [fakeMaxFields]bool
 	// scalar (bool / integer / enum) fields keep their value here, as 64 bits
 	fnum [fakeMaxFields]uint64
+	// repeated string fields keep their elements here
+	flist [fakeMaxFields][]string
+}
+
+// fakeList is the protoreflect.List view of one repeated string field of a fakeMsg.
+type fakeList struct {
+	protoreflect.List
+	m *fakeMsg
+	i int
+}
+
+func (l *fakeList) Len() int { return len(l.m.flist[l.i]) }
+func (l *fakeList) Get(k int) protoreflect.Value {
+	return protoreflect.ValueOfString(l.m.flist[l.i][k])
+}
+func (l *fakeList) Append(v protoreflect.Value) {
+	l.m.flist[l.i] = append(l.m.flist[l.i], v.String())
+	l.m.fset[l.i] = true
+}
+func (l *fakeList) IsValid() bool { return true }
+
+// Mutable: only repeated fields (the list that Append extends); like the real implementations it panics for
+// fields that have no mutable composite value.
+func (m *fakeMsg) Mutable(fd protoreflect.FieldDescriptor) protoreflect.Value {
+	i := m.fieldIndex(fd)
+	if i < 0 || !fd.IsList() {
+		panic("fakeMsg.Mutable: field is not a list")
+	}
+	return protoreflect.ValueOfList(&fakeList{m: m, i: i})
 }
 
 const fakeMaxFields = 2
@@ -255,6 +284,9 @@ func (m *fakeMsg) Get(fd protoreflect.FieldDescriptor) protoreflect.Value {
 	i := m.fieldIndex(fd)
 	if i < 0 {
 		panic("fakeMsg.Get: unknown field")
+	}
+	if fd.IsList() {
+		return protoreflect.ValueOfList(&fakeList{m: m, i: i})
 	}
 	switch fd.Kind() {
 	case protoreflect.BytesKind:
@@ -324,7 +356,7 @@ func (m *fakeMsg) Range(f func(protoreflect.FieldDescriptor, protoreflect.Value)
 	}
 	for i, fd := range m.desc.fields.list {
 		if i < fakeMaxFields && m.fset[i] {
-			if !f(fd, protoreflect.ValueOfString(m.fvals[i])) {
+			if !f(fd, m.Get(fd)) {
 				return
 			}
 		}
@@ -370,14 +402,43 @@ func (r *fakeResolver) FindMessageByName(name protoreflect.FullName) (protorefle
 	}
 	return &fakeMsgType{desc: newFakeMsgDesc(string(name))}, nil
 }
+
+// The other three lookups answer by the same mode and record which method was asked with what.
 func (r *fakeResolver) FindMessageByURL(url string) (protoreflect.MessageType, error) {
-	return nil, protoregistry.NotFound
+	r.seen = append(r.seen, "url:"+url)
+	switch r.mode {
+	case 1:
+		return nil, protoregistry.NotFound
+	case 2:
+		return nil, errFakeResolver
+	}
+	return &fakeMsgType{desc: newFakeMsgDesc("by-url:" + url)}, nil
 }
-func (r *fakeResolver) FindExtensionByName(protoreflect.FullName) (protoreflect.ExtensionType, error) {
-	return nil, protoregistry.NotFound
+
+type fakeExtType struct {
+	protoreflect.ExtensionType
+	how string
 }
-func (r *fakeResolver) FindExtensionByNumber(protoreflect.FullName, protoreflect.FieldNumber) (protoreflect.ExtensionType, error) {
-	return nil, protoregistry.NotFound
+
+func (r *fakeResolver) FindExtensionByName(name protoreflect.FullName) (protoreflect.ExtensionType, error) {
+	r.seen = append(r.seen, "ext:"+string(name))
+	switch r.mode {
+	case 1:
+		return nil, protoregistry.NotFound
+	case 2:
+		return nil, errFakeResolver
+	}
+	return &fakeExtType{how: "by-name:" + string(name)}, nil
+}
+func (r *fakeResolver) FindExtensionByNumber(msg protoreflect.FullName, num protoreflect.FieldNumber) (protoreflect.ExtensionType, error) {
+	r.seen = append(r.seen, "extnum:"+string(msg))
+	switch r.mode {
+	case 1:
+		return nil, protoregistry.NotFound
+	case 2:
+		return nil, errFakeResolver
+	}
+	return &fakeExtType{how: "by-number:" + string(msg)}, nil
 }
 
 // ---- toy codecs ----------------------------------------------------------------
